@@ -2,6 +2,8 @@
 
 package s2
 
+import "github.com/golang/geo/s1"
+
 // Read-only accessors for the model-based verification of the closest/furthest
 // edge queries (property C08) in /verif (build tag verif only).
 
@@ -49,3 +51,24 @@ func VerifTargetSetUseBruteForce(t VerifDistanceTarget, b bool) bool {
 // VerifTargetCapBound returns the cap the optimized search uses as the bound
 // of the points at distance zero from the target.
 func VerifTargetCapBound(t VerifDistanceTarget) Cap { return t.capBound() }
+
+// VerifSetInclusiveLimit sets the distance limit of the options with
+// Closest/FurthestInclusiveDistanceLimit (methods of the unexported options
+// core, not reachable through EdgeQueryOptions).
+func VerifSetInclusiveLimit(o *EdgeQueryOptions, furthest bool, limit s1.ChordAngle) {
+	if furthest {
+		o.common.FurthestInclusiveDistanceLimit(limit)
+	} else {
+		o.common.ClosestInclusiveDistanceLimit(limit)
+	}
+}
+
+// VerifSetConservativeLimit does the same with
+// Closest/FurthestConservativeDistanceLimit.
+func VerifSetConservativeLimit(o *EdgeQueryOptions, furthest bool, limit s1.ChordAngle) {
+	if furthest {
+		o.common.FurthestConservativeDistanceLimit(limit)
+	} else {
+		o.common.ClosestConservativeDistanceLimit(limit)
+	}
+}
